@@ -15,6 +15,7 @@ import (
 	"pgregory.net/rapid"
 
 	"verif/lib/ev"
+	"verif/lib/sched"
 )
 
 func TestMain(m *testing.M) {
@@ -49,6 +50,7 @@ var hashes = []struct {
 func TestC20Table(t *testing.T) {
 	st := ev.Get("C20", "TestC20Table")
 	rapid.Check(t, func(t *rapid.T) {
+		sched.SeedRand(t)
 		h := hashes[rapid.IntRange(0, len(hashes)-1).Draw(t, "hash")]
 		nt := nodetable.New(h.fn, keyEq)
 		defer nt.Close()
@@ -164,6 +166,7 @@ func TestC20List(t *testing.T) {
 	w := db.NewWriter()
 	serial := 0
 	rapid.Check(t, func(t *rapid.T) {
+		sched.SeedRand(t)
 		var log []string
 		fail := func(sig, format string, args ...any) {
 			msg := fmt.Sprintf(format, args...)
